@@ -1261,10 +1261,84 @@ static long long substep_count(int s) {
   return n;
 }
 
+// ---- replay of one recorded violation (bin/vcheck replay <file>): re-executes exactly that history
+// on fresh objects, without the explorer, and prints both sides.
+static int replay_main() {
+  const char* f = getenv("VERIF_REPLAY_TXT");
+  if (!f) { fprintf(stderr, "replay: VERIF_REPLAY_TXT not set\n"); return 2; }
+  std::ifstream in(f); std::string line;
+  std::vector<std::string> H, O; std::string P;
+  while (std::getline(in, line)) {
+    if (line.size() < 3) continue;
+    if (line[0] == 'H') H.push_back(line.substr(2)); else if (line[0] == 'O') O.push_back(line.substr(2)); else if (line[0] == 'P') P = line.substr(2);
+  }
+  build_menus(); build_ops(); build_queries();
+  auto run_hist = [&](const std::vector<std::string>& h, Cell& model, bool& nnc) -> Polyhedron* {
+    if (h.empty()) return 0;
+    // "C(2,UNIVERSE)" / "NNC(1,EMPTY)"
+    nnc = h[0].compare(0, 3, "NNC") == 0;
+    int dim = atoi(h[0].substr(h[0].find('(') + 1).c_str());
+    bool empty = h[0].find("EMPTY") != std::string::npos;
+    Polyhedron* p = fresh(nnc, dim, empty);
+    model = empty ? Cell::empty(dim) : Cell::universe(dim);
+    for (size_t i = 1; i < h.size(); ++i) {
+      bool found = false;
+      for (size_t oi = 0; oi < OPS.size() && !found; ++oi) if (OPS[oi].name == h[i] && !OPS[oi].binary) {
+        OPS[oi].apply(*p, 0);
+        if (OPS[oi].refv) model = ref::normalized(OPS[oi].refv(model, 0, nnc));
+        found = true;
+      }
+      if (!found) { fprintf(stderr, "replay: unknown history step '%s'\n", h[i].c_str()); return 0; }
+    }
+    return p;
+  };
+  Cell m, om; bool nnc = false, onnc = false;
+  std::unique_ptr<Polyhedron> p(run_hist(H, m, nnc)), o(run_hist(O, om, onnc));
+  if (!p) return 2;
+  printf("receiver history: "); for (size_t i = 0; i < H.size(); ++i) printf("%s%s", i ? " ; " : "", H[i].c_str()); printf("\n");
+  printf("receiver model value: %s\nreceiver dump:\n%s\n", ref::cell_str(m).c_str(), dump_of(*p).c_str());
+  if (o) printf("operand model value: %s\n", ref::cell_str(om).c_str());
+  std::string name = P.substr(0, P.find(" operand="));
+  for (size_t qi = 0; qi < QS.size(); ++qi) if (QS[qi].name == name) {
+    std::string got; try { got = QS[qi].run(*p, o.get()); } catch (const std::exception& e) { got = std::string("exception:") + e.what(); }
+    std::string want = QS[qi].expect(m, o ? &om : 0, nnc);
+    printf("query %s\n  implementation: %s\n  reference:      %s\n  %s\n", name.c_str(), got.c_str(), want.c_str(), strip_at(got) == want ? "AGREE" : "DISAGREE");
+    return strip_at(got) == want ? 0 : 1;
+  }
+  for (size_t oi = 0; oi < OPS.size(); ++oi) if (OPS[oi].name == name && !OPS[oi].convert) {
+    std::string ret; try { ret = OPS[oi].apply(*p, o.get()); } catch (const std::exception& e) { ret = std::string("exception:") + e.what(); }
+    int n = p->space_dimension();
+    std::unique_ptr<Polyhedron> second(clone(*p));
+    Cell gc = ref::normalized(cell_of(p->minimized_constraints(), n));
+    Cell gg = ref::normalized(ref::from_gens_dd(gens_of(second->minimized_generators(), n), n, nnc));
+    printf("operation %s returned '%s'\n  result (constraints): %s\n  result (generators):  %s\n", name.c_str(), ret.c_str(), ref::cell_str(gc).c_str(), ref::cell_str(gg).c_str());
+    if (OPS[oi].refv) {
+      Cell want = ref::normalized(OPS[oi].refv(m, o ? &om : 0, nnc));
+      bool a = ref::equal(gc, want), b = ref::equal(gg, want);
+      printf("  reference:            %s\n  %s\n", ref::cell_str(want).c_str(), (a && b) ? "AGREE" : "DISAGREE");
+      return (a && b) ? 0 : 1;
+    }
+    if (OPS[oi].relcheck) { std::string c = OPS[oi].relcheck(m, o ? &om : 0, gc, ret, nnc); printf("  relational oracle: %s\n", c.empty() ? "AGREE" : c.c_str()); return c.empty() ? 0 : 1; }
+    return 0;
+  }
+  if (name == "(observe)") {
+    int n = p->space_dimension();
+    std::unique_ptr<Polyhedron> second(clone(*p));
+    Cell gc = ref::normalized(cell_of(p->constraints(), n));
+    Cell gg = ref::normalized(ref::from_gens_dd(gens_of(second->generators(), n), n, nnc));
+    bool a = ref::equal(gc, m), b = ref::equal(gg, m);
+    printf("constraints(): %s\ngenerators():  %s\nmodel:         %s\n%s\n", ref::cell_str(gc).c_str(), ref::cell_str(gg).c_str(), ref::cell_str(m).c_str(), (a && b) ? "AGREE" : "DISAGREE");
+    return (a && b) ? 0 : 1;
+  }
+  fprintf(stderr, "replay: unknown operation '%s'\n", name.c_str());
+  return 2;
+}
+
 int main(int argc, char** argv) {
   ARGS = parse_args(argc, argv);
   sink().open(ARGS.out);
   MODE = ARGS.opt("--mode", "C01");
+  if (!ARGS.replay.empty()) { MODE = "C02"; return replay_main(); }
   int depth = atoi(ARGS.opt("--depth", ARGS.thorough() ? "4" : "3").c_str());
   int max_dim = atoi(ARGS.opt("--maxdim", "2").c_str());
   int pool_classes = atoi(ARGS.opt("--pool", ARGS.thorough() ? "60" : "36").c_str());
